@@ -10,9 +10,31 @@ M3 = 'Model.C03'
 PARAMS = 's0 s1 M0 M1 dx efl wavelength fpm_dx shift0 shift1'
 
 
+def returned_field_name(fn, calls):
+    """the single local name that holds the field returned by the calls in `calls` (directly, as first element of an unpacked
+    tuple, or through one intermediate name: `pak = call(...)`, then `field, a, b = pak` / `field = pak`)"""
+    def first(t):
+        return t.id if isinstance(t, ast.Name) else (t.elts[0].id if isinstance(t, ast.Tuple) and isinstance(t.elts[0], ast.Name) else None)
+    direct = set()
+    for st in ast.walk(fn):
+        if isinstance(st, ast.Assign) and st.value in calls:
+            direct.add(first(st.targets[0]))
+    if None in direct or not direct:
+        raise Untranslatable('result of to_fpm_and_back is not bound to a name')
+    via = set()
+    for st in ast.walk(fn):
+        if isinstance(st, ast.Assign) and isinstance(st.value, ast.Name) and st.value.id in direct:
+            via.add(first(st.targets[0]))
+    names = via if via else direct
+    if None in names or len(names) != 1:
+        raise Untranslatable('result of to_fpm_and_back is not bound to one name')
+    return next(iter(names))
+
+
 def generate(repo):
     g = Gen('C05', imports=['PrysmVerif.Num', 'PrysmVerif.Model.C05'], header=HEADER)
     pr, _ = load(repo, 'prysm/propagation.py')
+    ftm, _ = load(repo, 'prysm/fttools.py')
     emit_scalar(g, pr, 'Q_for_sampling', 'qForSampling', 'input_diameter prop_dist wavelength output_dx')
     emit_fixed(g, pr, 'focus_fixed_sampling', 'ffs', {'mdft': 'mdft.dft2', 'czt': 'czt.czt2'})
     emit_fixed(g, pr, 'unfocus_fixed_sampling', 'ufs', {'mdft': 'mdft.idft2', 'czt': 'czt.iczt2'})
@@ -181,14 +203,7 @@ def generate(repo):
         if not calls:
             raise Untranslatable('babinet does not call self.to_fpm_and_back')
         ok = True
-        field_names = set()
-        for st in ast.walk(fn):
-            if isinstance(st, ast.Assign) and st.value in calls:
-                t = st.targets[0]
-                field_names.add(t.id if isinstance(t, ast.Name) else t.elts[0].id)
-        if len(field_names) != 1:
-            raise Untranslatable('result of to_fpm_and_back is not bound to one name')
-        field = field_names.pop()
+        field = returned_field_name(fn, calls)
         for c in calls:
             kw = {k.arg: k.value for k in c.keywords}
             m = kw.get('fpm')
@@ -226,6 +241,83 @@ def generate(repo):
         return ok
     fact3(g, 'babinetIsFieldMinusReturnOfComplement', 'prysm/propagation.py:Wavefront.babinet',
           lambda: get_def(pr, 'Wavefront.babinet'), babinet)
+
+
+    def babinet_arith():
+        """the three pointwise expressions of Wavefront.babinet as ARITHMETIC: the mask handed to to_fpm_and_back, the field at the
+        Lyot plane, the field after the stop"""
+        from pyexpr2lean import Tr
+        fn = get_def(pr, 'Wavefront.babinet')
+        calls = find_calls(fn, 'self.to_fpm_and_back')
+        if not calls:
+            raise Untranslatable('babinet does not call self.to_fpm_and_back')
+        field = returned_field_name(fn, calls)
+        margs = set()
+        for c in calls:
+            kw = {k.arg: k.value for k in c.keywords}
+            if not isinstance(kw.get('fpm'), ast.Name) or 'shift' in kw:
+                raise Untranslatable('mask argument is not a name / a shift is passed')
+            margs.add(kw['fpm'].id)
+        if len(margs) != 1:
+            raise Untranslatable('different masks on the two return_more branches')
+        mname = margs.pop()
+        top = [st for st in fn.body if isinstance(st, ast.Assign) and len(st.targets) == 1 and isinstance(st.targets[0], ast.Name)]
+        first_call_line = min(c.lineno for c in calls)
+        mbind = [st for st in top if st.targets[0].id == mname and st.lineno < first_call_line]
+        if len(mbind) != 1:
+            raise Untranslatable('mask is not re-bound exactly once (at top level) before the call')
+        mask_term = Tr({'fpm': 'fpm'}, mode='num').expr(mbind[0].value)
+        lbind = [st for st in top if ast.unparse(st.value).count(f'{field}.data') == 1 and 'self.data' in ast.unparse(st.value)]
+        if len(lbind) != 1:
+            raise Untranslatable('no single combination of self.data with the returned field')
+        at_name = lbind[0].targets[0].id
+        at_term = Tr({'self.data': 'self_data', f'{field}.data': 'returned'}, mode='num').expr(lbind[0].value)
+        ifs = [st for st in fn.body if isinstance(st, ast.If) and ast.unparse(st.test) == 'lyot is not None']
+        if len(ifs) != 1 or len(ifs[0].body) != 1 or len(ifs[0].orelse) != 1:
+            raise Untranslatable('Lyot-stop branch not recognised')
+        a, b = ifs[0].body[0], ifs[0].orelse[0]
+        if not (isinstance(a, ast.Assign) and isinstance(b, ast.Assign) and ast.unparse(a.targets[0]) == ast.unparse(b.targets[0])):
+            raise Untranslatable('Lyot-stop branch does not bind one name')
+        after_name = ast.unparse(a.targets[0])
+        tr = Tr({'lyot': 'lyot', at_name: 'at_lyot'}, mode='num')
+        after_term, nostop_term = tr.expr(a.value), tr.expr(b.value)
+        # the returned Wavefront must hold `after_name`
+        rets = [r.value for r in ast.walk(fn) if isinstance(r, ast.Return)]
+        wb = [st for st in top if st.targets[0].id == after_name and isinstance(st.value, ast.Call) and ast.unparse(st.value.func) == 'Wavefront']
+        if len(wb) != 1 or ast.unparse(wb[0].value.args[0]) != after_name:
+            raise Untranslatable('the field after the stop is not wrapped into the returned Wavefront')
+        for r in rets:
+            first = r.elts[0] if isinstance(r, ast.Tuple) else r
+            if ast.unparse(first) != after_name:
+                raise Untranslatable('babinet does not return the field after the stop first')
+        return (f'def babinetMaskArg (fpm : K) : K :=\n  {typed(mask_term)}\n'
+                f'def babinetAtLyot (self_data returned : K) : K :=\n  {typed(at_term)}\n'
+                f'def babinetAfterLyot (lyot at_lyot : K) : K :=\n  {typed(after_term)}\n'
+                f'def babinetNoStop (lyot at_lyot : K) : K :=\n  {typed(nostop_term)}')
+    g.item('Wavefront.babinet.arith', 'prysm/propagation.py:Wavefront.babinet', lambda: get_def(pr, 'Wavefront.babinet'), babinet_arith,
+           'def babinetMaskArg (fpm : K) : K := (Num.ofInt (1) : K) - fpm\n'
+           'def babinetAtLyot (self_data returned : K) : K := self_data - returned\n'
+           'def babinetAfterLyot (lyot at_lyot : K) : K := lyot * at_lyot\n'
+           'def babinetNoStop (lyot at_lyot : K) : K := at_lyot')
+
+
+    # ---- no in-place NumPy operation (augmented assignment, item assignment, `out=`, mutating method) on an object READ FROM
+    # AN EXECUTOR CACHE (`self.Eout[key]`, `self.Ein[key]`, `self.components[key]`) or on a view / alias of one, in any entry point
+    # that shares the caches with the fixed-sampling routes -- the *_backprop entry points included: such an operation changes
+    # what every LATER call with the same sampling key computes
+    def cache_fact(cls, meth):
+        def check():
+            try:
+                fn = get_def(ftm, f'{cls}.{meth}')
+            except Untranslatable:
+                return True               # the entry point does not exist (e.g. no chirp-Z backprop): nothing to corrupt
+            return no_inplace_on_args(fn, array_params=(), cache_reads=True)
+        return check
+    for cls, short, meths in (('MatrixDFTExecutor', 'mdft', ('dft2', 'idft2', 'dft2_backprop', 'idft2_backprop')),
+                              ('ChirpZTransformExecutor', 'czt', ('czt2', 'iczt2', 'czt2_backprop', 'iczt2_backprop'))):
+        for meth in meths:
+            nm = f'{short}{"".join(w.capitalize() for w in meth.split("_"))}NoInPlaceOnCache'
+            g.fact(nm, f'prysm/fttools.py:{cls}.{meth}', cache_fact(cls, meth))
 
     for nm, py in (('fpmNoInPlaceOnArguments', 'to_fpm_and_back'), ('fpmWrapNoInPlaceOnArguments', 'Wavefront.to_fpm_and_back'),
                    ('babinetNoInPlaceOnArguments', 'Wavefront.babinet'), ('ffsNoInPlaceOnArguments', 'focus_fixed_sampling'),
